@@ -3,4 +3,8 @@ EXTENDS Dictionary
 MCCaps1 == <<2>>
 MCCaps2 == <<2, 4>>
 MCCaps3 == <<2, 4, 8>>
+ThrInf == 0 - 1            \* infinite reset threshold (cfg files cannot hold negative numbers)
+Thr3 == 3
+Thr1 == 1
+Thr0 == 0
 =============================================================================
